@@ -69,11 +69,11 @@ func runScale(c *Case) *Obs {
 			fail("panic: %v", v)
 		}
 	}()
-	limit := 60 * time.Second
+	limit := 300 * time.Second
 	select {
 	case <-done:
 	case <-time.After(limit):
-		return &Obs{Obs: []any{map[string]any{"ok": false, "msg": "watchdog: the scenario did not finish within 60s (deadlock or spin)", "kind": kind}}}
+		return &Obs{Obs: []any{map[string]any{"ok": false, "msg": "watchdog: the scenario did not finish within 300s (deadlock or spin)", "kind": kind}}}
 	}
 	res["kind"] = kind
 	return &Obs{Obs: []any{res}}
